@@ -81,7 +81,7 @@ func runSys(x *hist, r *hx.Rng, g int, start string, t []int) {
 		}
 	}
 	a, b := o[0], o[1]
-	ev := func() { x.evidence([][3]int64{{int64(a), x.h - 1, x.t - 1}}) }
+	ev := func() { x.evidence([][3]int64{{int64(a), x.h - 1, x.t - 1e9}}) }
 	x.newBlock(5)
 	x.allSign()
 	x.claim(b, b, true)
@@ -243,4 +243,93 @@ func runThr(x *hist, g int, c thrCase) {
 		x.allSign(int64(a))
 		x.end()
 	}
+}
+
+// Boundary stream: every time comparison of the status machine is probed at the stored deadline
+// -1 s / -999 ms / -500 ms / -1 ns / exactly / +1 ns / +1 s: end of the inactivity period (MsgActivate), end
+// of the unjail window (jail time + UnjailMaxTime), evidence age (duration and block count).
+var bndDeltas = []int64{-1000000000, -999000000, -500000000, -1, 0, 1, 1000000000}
+
+type bndCase struct {
+	kind string
+	d    int64
+}
+
+func bndCases() []bndCase {
+	var out []bndCase
+	for _, k := range []string{"activate", "unjail", "evidence-age-duration"} {
+		for _, d := range bndDeltas {
+			out = append(out, bndCase{k, d})
+		}
+	}
+	for _, d := range []int64{-1, 0, 1} {
+		out = append(out, bndCase{"evidence-age-blocks", d})
+	}
+	return out
+}
+
+func runBnd(x *hist, g int, c bndCase) {
+	var o []int
+	for i := 0; i <= nCand; i++ {
+		if i != g {
+			o = append(o, i)
+		}
+	}
+	a, b := o[0], o[1]
+	cf := configs[x.cfg]
+	x.newBlockNs(5e9 + 123456789)
+	x.allSign()
+	x.claim(a, a, true)
+	x.claim(b, b, true)
+	x.end()
+	switch c.kind {
+	case "activate":
+		for i := 0; i < 2; i++ { // cfg 0: inactive at the second miss
+			x.newBlockNs(5e9 + 7)
+			x.allSign(int64(a))
+			x.end()
+		}
+		until := x.prev.SI[a].Until
+		x.newBlockNs(until + c.d - x.t)
+		x.allSign()
+		x.ownerMsg("activate", a)
+		x.end()
+		x.newBlockNs(2e9)
+		x.allSign()
+		x.ownerMsg("activate", a)
+		x.end()
+	case "unjail":
+		x.newBlockNs(5e9 + 7)
+		x.allSign()
+		x.evidence([][3]int64{{int64(a), x.h - 1, x.t - 1e9}})
+		jt := x.t
+		x.end()
+		x.newBlockNs(jt + int64(x.cur.Unjail)*1e9 + c.d - x.t)
+		x.allSign()
+		x.proposal("unjail", a)
+		x.end()
+	case "evidence-age-duration":
+		for i := 0; i < 7; i++ { // enough blocks for an old infraction height
+			x.newBlockNs(200e9 + 1)
+			x.allSign()
+			x.end()
+		}
+		x.newBlockNs(5e9)
+		x.allSign()
+		x.evidence([][3]int64{{int64(a), x.h - cf.EvAgeBlocks - 1, x.t - cf.EvAgeDur*1e9 - c.d}})
+		x.end()
+	case "evidence-age-blocks":
+		for i := 0; i < 7; i++ {
+			x.newBlockNs(200e9 + 1)
+			x.allSign()
+			x.end()
+		}
+		x.newBlockNs(5e9)
+		x.allSign()
+		x.evidence([][3]int64{{int64(a), x.h - cf.EvAgeBlocks - c.d, x.t - cf.EvAgeDur*1e9 - 1}})
+		x.end()
+	}
+	x.newBlockNs(5e9)
+	x.allSign()
+	x.end()
 }
